@@ -76,6 +76,8 @@ func main() {
 		h.GenCli(rng, thorough, emit)
 	case "sm":
 		h.GenSM(rng, thorough, emit)
+	case "tmo":
+		h.GenTmo(rng, thorough, emit)
 	case "trip":
 		h.GenTrip(rng, thorough, emit)
 	case "life":
